@@ -4,6 +4,7 @@ CONSTANTS
     CacheSound = FALSE
     MaxAlter = 1
     TamperFields = {"nextAvk"}
+    MsgModes = {"k"}
     ForgeEpochs = {1, 2, 3, 4}
     Forge2Pars = {"p"}
     ForgeKeys = {"A"}
